@@ -7,6 +7,7 @@ from ..model import flat_stmts, walk, strip, is_call, call_obj, call_args, rende
 from .. import sym as S
 from .c10 import product_fns
 
+LATENT_OPENMP = True
 EXPLANATION = ("LF engine store summaries of the straight-line update blocks of time_integration_scheme::update_nodes_positions, in all "
                "six configurations: at every 'X.momentum_.translate(A)' the argument is (F_cur(X) - gamma*p_cur(X)/m)*dt, at every "
                "'X.pos_.translate(B)' it is p_cur(X)*dt/m after the momentum update (semi-implicit) resp. F_cur(X)*dt/gamma (overdamped), "
@@ -93,6 +94,13 @@ def analyse_block(rep, prog, fn, fi, blk, cm, dm):
                 xexpr, field, meth, fexpr = c
                 X = ev.ev(xexpr)
                 if not isinstance(X, S.Lazy):
+                    xs = strip(xexpr)
+                    d = ev._var_decl(xs["ref"]["did"]) if xs.get("k") == "DeclRefExpr" and xs["ref"].get("dk") == "Var" else None
+                    if isinstance(d, dict) and S.clean_type(d.get("t", "")) == "node" and not d.get("t", "").rstrip().endswith("&"):
+                        rep.violation("C03.position-law", prog, fn, d, "node advanced through a by-value copy",
+                                      "%s: '%s' (line %s) is a copy of the node (type %s, not a reference into the cell's node list): the %s update %s and every later write in this block "
+                                      "act on the temporary, the node stored in the cell keeps its position, momentum and force" % (where, d.get("name"), d.get("l"), d.get("t"), field, short(e, 70)))
+                        return
                     raise S.Decline("node designator is not an object")
                 args = call_args(e)
                 if meth == "translate":
@@ -363,6 +371,15 @@ def static_rules(rep, prog, fn, fi, cm):
         rep.violation("C03.static", prog, None, None, "is_static_ set by %s" % ",".join(sorted(setters - allowed)), "is_static_ is set outside the ecm/static cell classes (%s): such cells may be coupled to moving nodes" % sorted(setters - allowed))
 
 
+def _source_text(fn):
+    import os
+    from ..extract import REPO
+    try:
+        return open(os.path.join(REPO, fn["file"])).read()
+    except OSError:
+        return ""
+
+
 def time_rules(rep, prog, fn, fi):
     writers = []
     for g in product_fns(prog):
@@ -378,7 +395,39 @@ def time_rules(rep, prog, fn, fi):
         r = strip(n["c"][1]) if len(n["c"]) > 1 else {}
         in_loop = fi.enclosing(n, ("ForStmt", "WhileStmt", "CXXForRangeStmt", "DoStmt", "IfStmt", "LambdaExpr")) is not None
         top = fi.parent.get(id(n), (None, None))[0] is fn["body"] or fi.parent.get(id(fi.parent.get(id(n), (None, None))[0] or {}), (None, None))[0] is fn["body"]
-        if n.get("op") == "+=" and r.get("k") == "MemberExpr" and r["ref"].get("qn") == "time_integration_scheme::dt_" and not in_loop:
+        # executed by every thread of an enclosing parallel region unless a single/master construct intervenes
+        per_thread = None
+        for p_, _slot, _ch in fi.ancestors(n):
+            o = p_.get("omp")
+            if o and ("single" in o or "master" in o):
+                break
+            if o and "parallel" in o:
+                per_thread = p_
+                break
+        latent = ""
+        vprog = getattr(prog, "latent", None)
+        if per_thread is None and vprog is not None:
+            # the library of this unit is built without -fopenmp (its pragmas are ignored by the product build); what the pragmas
+            # say is decided on the unit re-parsed with -fopenmp
+            vfn = vprog.fn(fn["qn"])
+            vfi = vprog.index(vfn)
+            for vn in walk(vfn["body"]):
+                if vn.get("k") in ("BinaryOperator", "CompoundAssignOperator", "UnaryOperator") and vn.get("op") in ("=", "+=", "-=", "++", "--", "*="):
+                    vl = strip(vn["c"][0])
+                    if vl.get("k") == "MemberExpr" and vl["ref"].get("qn") == "time_integration_scheme::simulation_time_":
+                        for p_, _slot, _ch in vfi.ancestors(vn):
+                            o = p_.get("omp")
+                            if o and ("single" in o or "master" in o):
+                                break
+                            if o and "parallel" in o:
+                                per_thread = p_
+                                latent = " (as parsed with -fopenmp; the product's time_integration library is currently built without it, which hides the effect until OpenMP is enabled for this unit)"
+                                break
+        if per_thread is not None:
+            rep.violation("C03.time", prog, fn, n, "simulation_time_ advanced once per thread",
+                          "%s lies inside the '#pragma omp %s' region of line %s without a single/master construct: every thread of the team executes it (unsynchronised), "
+                          "so one position update advances the simulated time by up to nb_threads*dt_%s" % (short(n, 60), per_thread.get("omp"), per_thread.get("l"), latent))
+        elif n.get("op") == "+=" and r.get("k") == "MemberExpr" and r["ref"].get("qn") == "time_integration_scheme::dt_" and not in_loop:
             rep.ok("C03.time", prog, fn, n, "single writer: simulation_time_ += dt_ at the top level of update_nodes_positions")
         else:
             rep.violation("C03.time", prog, fn, n, "simulation_time_ not advanced by exactly dt_", "%s: one position update must advance the simulated time by exactly one time step, once" % short(n, 60))
